@@ -698,7 +698,8 @@ pub fn max<Z: ZNum>(c: &Ctx<Z>) -> Expect<Z> {
 /// clamp(self = r0, min = r1, max = r2); min > max is outside the statement
 pub fn clamp<Z: ZNum>(c: &Ctx<Z>) -> Expect<Z> {
     if c.b() > c.c() {
-        return Expect::Unspec;
+        // excluded by the statement (and it panics, like Ord::clamp): not called
+        return Expect::Skip;
     }
     let v = if c.a() < c.b() {
         c.b()
@@ -867,4 +868,40 @@ pub fn ilog10<Z: ZNum>(c: &Ctx<Z>) -> Expect<Z> {
         return is(Obs::Panic);
     }
     is(Obs::N(ilog_exact(c.a(), &Z::zi(10))))
+}
+
+// ---- variants restricted to what one property states -----------------------------------
+/// next_multiple_of on states where the result is representable (overflow behaviour is C04's)
+pub fn next_multiple_of_representable<Z: ZNum>(c: &Ctx<Z>) -> Expect<Z> {
+    match next_multiple_of(c) {
+        Expect::Is(Obs::V(z)) if c.ti.fits(&x_next_multiple(c)) => Expect::Is(Obs::V(z)),
+        Expect::Is(Obs::Panic) if c.b().is_zero() => Expect::Is(Obs::Panic),
+        Expect::Unspec => Expect::Unspec,
+        _ => Expect::Skip,
+    }
+}
+/// unsuffixed pow on states where a^e is representable
+pub fn pow_representable<Z: ZNum>(c: &Ctx<Z>) -> Expect<Z> {
+    match pow_exact_bounded(c) {
+        Some(z) if c.ti.fits(&z) => is(Obs::V(z)),
+        _ => Expect::Skip,
+    }
+}
+
+/// two consecutive set_bit calls: aux = i1 | v1<<16 | i2<<17 | v2<<33
+pub fn set_bit_twice<Z: ZNum>(c: &Ctx<Z>) -> Expect<Z> {
+    let (i1, v1, i2, v2) = (c.aux & 0xffff, (c.aux >> 16) & 1 == 1, (c.aux >> 17) & 0xffff, (c.aux >> 33) & 1 == 1);
+    if i1 >= c.bits() || i2 >= c.bits() {
+        return Expect::Unspec;
+    }
+    let mut bv = bitvec(c, 0);
+    bv[i1 as usize] = v1;
+    bv[i2 as usize] = v2;
+    let mut bytes = vec![0u8; bv.len() / 8];
+    for (i, b) in bv.iter().enumerate() {
+        if *b {
+            bytes[i / 8] |= 1 << (i % 8);
+        }
+    }
+    is(Obs::V(from_pat_bytes(c, &bytes)))
 }
